@@ -11,9 +11,9 @@ def key(src):
     return hashlib.sha1(src.encode()).hexdigest()[:10]
 
 
-def family(tier):
+def family(tier, seed=None):
     fam = [("tests", s) for s in bounded.harvest_tests()] + [("curated", s) for s in bounded.CURATED] + \
-          [("outside", s) for s in bounded.OUTSIDE] + [("generated", s) for s in bounded.generated(tier, common.SEED)]
+          [("outside", s) for s in bounded.OUTSIDE] + [("generated", s) for s in bounded.generated(tier, common.SEED if seed is None else seed)]
     seen, out = set(), []
     for o, s in fam:
         if s not in seen:
